@@ -271,6 +271,10 @@ class Interp:
             a = self.apply(c["l"], True, env.copy())
             b2 = self.apply(c["r"], True, self.apply(c["l"], False, env.copy()))
             return self.join_onto(env, a, b2)
+        # whatever the outcome of a leaf condition: the text slices inside it were taken without a panic, so their
+        # constant bounds are boundaries inside their texts for everything that follows
+        if not (k == "bin" and c.get("op") in ("&&", "||")):
+            self.slices_taken(c, env)
         if k == "bin" and c.get("op") in ("<", "<=", ">", ">=", "==", "!="):
             l, r_, op = c["l"], c["r"], c["op"]
             lp = self.len_of(l)
@@ -378,6 +382,25 @@ class Interp:
         if k == "letx":
             self.bind_let(c["pat"], c["init"], env, cond=True)
         return env
+
+    def slices_taken(self, c, env):
+        st = [c]
+        while st:
+            n = st.pop()
+            if isinstance(n, list):
+                st.extend(n)
+                continue
+            if not isinstance(n, dict) or n.get("k") == "closure":
+                continue
+            if n.get("k") == "index" and is_str_ty(n.get("bt")):
+                base = place_str(n.get("e"))
+                if base:
+                    a, b_ = self.range_consts(n.get("i"), env)
+                    for v_ in (a, b_):
+                        if isinstance(v_, int) and not isinstance(v_, bool) and v_ > 0:
+                            env.prefix.setdefault(base, set()).add(v_)
+                            env.upd(base, minlen=v_)
+            st.extend(v for kk, v in n.items() if isinstance(v, (dict, list)) and kk not in ("pat", "pats"))
 
     def join_onto(self, env, a, b2):
         """facts that hold in both refinements a and b2 are added to env"""
